@@ -525,6 +525,21 @@ func C12(r *ev.Report) {
 		}
 	})
 
+	// the unary operations (Invert among them) on the division-step steered members of p, see alpha/divstep.go
+	steered := c06Steered(ref.P, thorough)
+	r.Bound("divstep_steered_members", len(steered))
+	r.Rule("unary sweep also on the division-step steered members (operands whose 2-adic digits follow every periodic parity word up to the period bound for 256 division steps), as canonical value and as stored limbs")
+
+	r.ParFor(len(steered), func(_, i int) {
+		r.Transitions.Add(12)
+		r.Evals.Add(1)
+		r.Distinct.Add(1)
+
+		if key, detail := c12UnaryCase(steered[i]); key != "" {
+			r.Violation(key, detail, Case{"op": "unary", "a": hx(steered[i].V)})
+		}
+	})
+
 	rich := alpha.Values(ref.P, 2)
 	r.Bound("predicate_values", len(rich))
 	r.States.Add(int64(len(rich)))
